@@ -112,6 +112,27 @@ def parse_tex_tokens(toks):
     return texs
 
 
+SIBLING_MAGICS = [b"CTPK", b"BCH\0", b"CGFX", b"DATA", b"DICT", b"TXOB", b"\x00\x20\xAF\x30", b"SARC", b"\0\0\0\0", b"\xff\xff\xff\xff"]
+
+
+def magic_variants(magic):
+    """wrong 4-byte magics derived from the right one: every permutation of its bytes (reversal and rotations included),
+    case flips of its letters (all / each one), the tags of the sibling formats and sub-blocks and their reversals"""
+    import itertools
+    out = set()
+    for p in itertools.permutations(range(4)):
+        out.add(bytes(magic[i] for i in p))
+    letters = [i for i in range(4) if chr(magic[i]).isalpha()]
+    out.add(bytes(b ^ 0x20 if i in letters else b for i, b in enumerate(magic)))
+    for k in letters:
+        out.add(bytes(b ^ 0x20 if i == k else b for i, b in enumerate(magic)))
+    for sib in SIBLING_MAGICS:
+        out.add(sib)
+        out.add(sib[::-1])
+    out.discard(bytes(magic))
+    return sorted(out)
+
+
 def rand_knobs(rng, kind):
     k = dict(permute=rng.random() < 0.6, gaps=rng.random() < 0.5, share=rng.random() < 0.4, tail=rng.random() < 0.4,
              names_last=rng.random() < 0.3, junk_fields=rng.random() < 0.6, align=rng.choice([1, 1, 4, 16]),
@@ -163,8 +184,9 @@ class C20(PropertyCheck):
             "names and payloads permuted, junk gaps, alignment 1/4/16, shared payload storage, section bases at 0 / at the first target / random, junk in "
             "ignored fields, trailing junk, BCH backward-compatibility bytes on both sides of 0x20), each accepted by the extracted verified "
             "conforms_<fmt>b; streams: ref (whole file: count, order, names, dimensions, pixels against the reference decoders of gen/texref.py), "
-            "cut (EVERY prefix length of the file: never PANIC/ABORT, Err whenever the cut removes a payload byte), wrong-magic (each magic byte changed: "
-            "rejected), odd (3DS containers with textures outside the supported set - sides 4..40 that are not powers of two or not multiples of the tile, "
+            "cut (EVERY prefix length of the file: never PANIC/ABORT, Err whenever the cut removes a payload byte), wrong-magic (each magic byte changed; every permutation of the magic's bytes, case flips, sibling-format and sub-block tags and "
+            "their reversals, each with the two bytes behind the magic unchanged / FF FE / FE FF: rejected), sub-magic (tags the readers ignore: model "
+            "comparison only), odd (3DS containers with textures outside the supported set - sides 4..40 that are not powers of two or not multiples of the tile, "
             "format ids 1, 6, 9, 10, 11 - whole and at every prefix: clean outcome, supported textures of an accepted file checked, model compared), far "
             "(a 66 KiB junk gap: offsets beyond 16 bits), f32-size (payload bytes requested by ctpk/bch around the binary32 exactness boundary), "
             "codec-table (sjis_encoded = encoding_rs on all 1- and 2-byte strings), alias (several table entries sharing one stored payload with "
@@ -212,6 +234,26 @@ class C20(PropertyCheck):
                             bad = bytearray(img)
                             bad[b] ^= x
                             cases.append(Case("%s full %s" % (kind, hx(bad)), kind + "-wrong-magic"))
+                if kind != "ctpk" and j % 6 == 0:
+                    # structured wrong magics (permutations / reversal, case flips, sibling tags), each with the two bytes behind the
+                    # magic as they are, as the little-endian BOM FF FE and as the byte-swapped BOM FE FF (the CGFX byte-order mark)
+                    for wm in magic_variants(img[:4]):
+                        for bom in (None, b"\xff\xfe", b"\xfe\xff"):
+                            bad = bytearray(img)
+                            bad[0:4] = wm
+                            if bom is not None:
+                                if len(bad) < 6 or bytes(bad[4:6]) == bom:
+                                    continue
+                                bad[4:6] = bom
+                            cases.append(Case("%s full %s" % (kind, hx(bad)), kind + "-wrong-magic"))
+                if j % 6 == 0 and n > 0 and kind in ("ctpk", "cgfx"):
+                    # tags the readers do not look at (CTPK file magic; CGFX DATA / DICT / TXOB): compared with the model only
+                    spots = [0] if kind == "ctpk" else [0x14] + [img.find(t) for t in (b"DICT", b"TXOB") if img.find(t) >= 0]
+                    for at in spots:
+                        for wm in magic_variants(img[at:at + 4])[::5]:
+                            bad = bytearray(img)
+                            bad[at:at + 4] = wm
+                            cases.append(Case("%s full %s" % (kind, hx(bad)), kind + "-sub-magic"))
             # textures outside the supported set (3DS containers): other sizes and format ids; compared with the model,
             # the oracle asks for a clean outcome and checks the supported textures of an accepted file
             if kind != "tpl":
